@@ -398,6 +398,7 @@ Proof. vm_compute. reflexivity. Qed.
 
 (* ------------------------------------------------ the dependency's proof decoder *)
 Definition is_bad (s : sib) : bool := match s with SBad => true | _ => false end.
+#[local] Arguments mj_sibs : simpl never.
 
 Lemma new_proof_from_data_spec l : forall lvl,
   existsb is_bad l = false ->
@@ -464,7 +465,7 @@ Qed.
 (* verifiable.decodeMTP: total for EVERY shape *)
 Theorem decode_mtp_total p : ok_or_err (decode_mtp all_guards p).
 Proof.
-  unfold decode_mtp. cbn [g_mtpjson all_guards].
+  unfold decode_mtp, decode_mtp_with. cbn [g_mtpjson all_guards].
   destruct (mj_kinds_ok p) eqn:Ek; cbn [negb]; [|exact I].
   destruct (Nat.ltb 240 (List.length (mj_sibs p))) eqn:El; [exact I|].
   destruct (existsb is_null (mj_sibs p)) eqn:En; [exact I|].
@@ -474,6 +475,19 @@ Proof.
   { apply short_nonnull_safe; [simpl; lia|exact En]. }
   rewrite Hs. apply orb_true_r.
 Qed.
+
+(* a shape check that looks the siblings up by EXACT key misses a member spelled
+   "Siblings", which the dependency's decoder (case-insensitive, last wins) does use *)
+Definition capital_siblings : mtpj := mkmtpj_m true [("siblings", []); ("Siblings", [SNull])].
+
+Lemma decode_mtp_exact_lookup_refuted :
+  decode_mtp_with true all_guards capital_siblings = Panic "nil sibling: Hash.Equals".
+Proof. vm_compute. reflexivity. Qed.
+
+Example decode_mtp_case_insensitive :
+  decode_mtp all_guards capital_siblings = Err "mtp-null-sibling"
+  /\ decode_mtp all_guards (mkmtpj_m true [("SIBLINGS", [SNull]); ("siblings", [SZero])]) = Ok tt.
+Proof. split; vm_compute; reflexivity. Qed.
 
 Lemma opt_mtp_total o : ok_or_err (opt_mtp_unmarshal all_guards o).
 Proof. destruct o; simpl; [apply decode_mtp_total|exact I]. Qed.
